@@ -26,8 +26,8 @@ Proof. vm_compute. repeat split. Qed.
 
 (* ---------------------------------------------------------------------------------------
    fs.RootPath / copy.rootPath over the syscall-level file-system model (Model/Fs.v).
-   Vocabulary (Model/RootPath.v): [render cs] = "/c1/.../cn"; [name_ok] = a name (non-empty, no
-   separator, not "." / ".."); [plain_dir f d cs = Some i] = cs leads from directory d to
+   Vocabulary (Model/RootPath.v): [render cs] = "/c1/.../cn"; [lex_name_ok] = a name (non-empty, no
+   separator, not "." / ".."), [name_ok] = such a name without NUL byte; [plain_dir f d cs = Some i] = cs leads from directory d to
    directory i through real directories; [link_free f d cs] = no prefix of cs, looked up from d
    without following anything, is a symlink (missing entries allowed: "does not exist yet").
    Scope: root is a clean absolute path whose own components are real directories. *)
@@ -50,7 +50,8 @@ Theorem copy_rootpath_result_link_free :
     forallb name_ok rcs = true ->
     plain_dir f (c_root c) rcs = Some dr ->
     copy_root_path c f (render rcs) p follow = inl out ->
-    exists cs, out = render (rcs ++ cs) /\ forallb name_ok cs = true /\
+    exists cs, out = render (rcs ++ cs) /\ forallb lex_name_ok cs = true /\
+               forallb name_ok (if follow then cs else removelast cs) = true /\
                link_free f dr (if follow then cs else removelast cs) = true.
 Proof. exact copy_rootpath_result_link_free_proof. Qed.
 Print Assumptions copy_rootpath_result_link_free.
@@ -60,7 +61,7 @@ Print Assumptions copy_rootpath_result_link_free.
    kernel's symlink budget: "as if root were /" holds for the RESULT. *)
 Theorem link_free_resolution_rootless :
   forall f dr cs,
-    forallb name_ok cs = true -> link_free f dr cs = true ->
+    forallb lex_name_ok cs = true -> link_free f dr cs = true ->
     forall fuel rt1 rt2 fl1 fl2 n1 n2,
       walk fuel f rt1 dr cs fl1 n1 = walk fuel f rt2 dr cs fl2 n2.
 Proof. exact link_free_resolution_rootless_proof. Qed.
